@@ -182,6 +182,10 @@ func c08GenOpt(r *RNG, id string, allowComma bool) *Case {
 	c.Set("ignore", strings.Join(ign, ","))
 	c.SetBool("table", r.Chance(1, 3))
 	c.NonTrv = true
+	if !allowComma && r.Chance(1, 4) {
+		c.Set("fmt", r.PickStr([]string{"qcsv", "qcsv", "tcsv", "bothcsv"}))
+		c.Tag("via-csv")
+	}
 	maybeCLI(r, c, 6)
 	return c
 }
@@ -241,7 +245,23 @@ func trInputs(c *Case) (qFa, tFa string) {
 
 func execC08(r *RNG, c *Case) {
 	q, t := trInputs(c)
-	c.Set("go", goField(runTopRanking(c, "fasta", "fasta", q, t)))
+	// the property speaks about the alignments; the command may be handed them as FASTA or as the CSV `updown list`
+	// derives from them: 1 case in 4 goes through CSV on the query side, the target side, or both (field `fmt`, set
+	// from the case ID so that old case lines replay as they were)
+	qt, tt := "fasta", "fasta"
+	switch c.Get("fmt") {
+	case "qcsv", "bothcsv":
+		if csv, err := udList(c, q); err == nil {
+			q, qt = csv, "csv"
+		}
+	}
+	switch c.Get("fmt") {
+	case "tcsv", "bothcsv":
+		if csv, err := udList(c, t); err == nil {
+			t, tt = csv, "csv"
+		}
+	}
+	c.Set("go", goField(runTopRanking(c, qt, tt, q, t)))
 }
 
 // udList runs the real `updown list`
